@@ -320,8 +320,17 @@ class Model:
         rnd = random.Random(12345)
         idx = list(range(len(requests)))
         rnd.shuffle(idx)
-        idx = idx[:sample]
-        part = [requests[i] for i in idx]
+        # a budget on the total size keeps the Coq side to a few seconds: literals are parsed and the
+        # list-of-code-points strings evaluated by vm_compute
+        part, budget = [], 30000
+        for i in idx:
+            size = len(encode_request(*requests[i]))
+            if size > budget and len(part) >= 5:
+                continue
+            part.append(requests[i])
+            budget -= size
+            if len(part) >= sample or budget <= 0:
+                break
         fin = os.path.join(self.scratch, 'xreq.txt')
         with open(fin, 'w') as f:
             for fname, args in part:
